@@ -11,7 +11,8 @@ pieces in which it is written — every split is covered), `os.rename` (one atom
 The model is of the tree with the D18 repair (`fixes/D18-cancel-snapshot-transfer-on-reconnect.diff`): whenever the
 connection to a follower is replaced the leader forgets its transmission for that follower
 (`Ev.reconnect true`).  The pinned behaviour is `Ev.reconnect false`; `interrupted_safe_pinned_counterexample`
-shows what it allows. -/
+shows what it allows.  It is also of the tree with D66 and D70: a completely received snapshot is kept apart
+(`<dump>.1.tmp` / `__incomingSnapshot`) and becomes the stored one only by `finishIncoming(True)`. -/
 namespace PSO.C09
 open PSO PSO.Serializer
 
@@ -23,24 +24,34 @@ open PSO PSO.Serializer
 A leader whose store holds `D` and that has no transmission open for node `n` sends, in one burst with enough
 budget, a list of chunks; a receiver in ANY state (any mode, a half-received older transfer, its own dump being
 written) that is fed these chunks answers `False` to all but the last and `True` to the last — the empty chunk
-with `isLast` the code always sends — and then stores exactly `D`; the leader's transmission is closed. -/
+with `isLast` the code always sends; the received snapshot (`deserialize(incoming=True)`) is then exactly `D`, the
+STORED snapshot is untouched (D70); `finishIncoming(True)` makes `D` the stored one, `finishIncoming(False)` leaves
+the stored one as it was; the leader's transmission is closed. -/
 theorem chunks_roundtrip (s r : Ser) (n : Nat) (D : Bytes) (b : Nat)
     (hidle : s.pid = .idle) (hc : 1 ≤ s.batch) (hnew : tlookup n s.trans = none) (hdump : s.fs.dump = some D)
     (hb : D.length + 1 ≤ b) :
-    (r.feed (s.burst n b).2).1.stored = some D ∧ (r.feed (s.burst n b).2).1.incOpen = false ∧
+    (r.feed (s.burst n b).2).1.incoming = some D ∧ (r.feed (s.burst n b).2).1.stored = r.stored ∧
+    (r.feed (s.burst n b).2).1.incOpen = false ∧
     (∃ k, (r.feed (s.burst n b).2).2 = List.replicate k false ++ [true] ∧ (s.burst n b).2.length = k + 1) ∧
-    (∀ x ∈ (s.burst n b).2, x ≠ none) ∧ tlookup n (s.burst n b).1.trans = none := by
+    (∀ x ∈ (s.burst n b).2, x ≠ none) ∧ tlookup n (s.burst n b).1.trans = none ∧
+    ((r.feed (s.burst n b).2).1.finishIncoming true).1.stored = some D ∧
+    ((r.feed (s.burst n b).2).1.finishIncoming false).1.stored = r.stored := by
   have hcur : s.cur n = some ⟨D, 0⟩ := by simp [Ser.cur, hnew, hdump]
   have := burst_feed b s r n D 0 hidle hc hcur (Or.inl rfl) (by omega)
-  exact ⟨this.1, this.2.1, this.2.2.2.1, this.2.2.2.2.2.2.2, this.2.2.2.2.1⟩
+  obtain ⟨h1, h2, h3, h4, _, h6, h7, _, _, h10⟩ := this
+  refine ⟨h1, h4, h2, h6, h10, h7, (finish_accept_dump _ D h3 h1).1, ?_⟩
+  show ((r.feed (s.burst n b).2).1.finishIncoming false).1.fs.dump = r.fs.dump
+  rw [finish_reject_dump]; exact h4
 
 /-- non-vacuity: 5 bytes in chunks of 2 = three data chunks and the empty last one; a receiver in the middle of
-another transfer ends with exactly the 5 bytes -/
+another transfer receives exactly the 5 bytes, keeps its stored `[9]`, and stores the 5 bytes once it installs -/
 example :
     let s : Ser := { mode := .memory, batch := 2, fs := { dump := some [1, 2, 3, 4, 5] } }
     let r : Ser := { mode := .file, batch := 7, incOpen := true, fs := { dump := some [9], tmp1 := some [8, 8] } }
     (s.burst 3 6).2 = [some ⟨[1, 2], true, false⟩, some ⟨[3, 4], false, false⟩, some ⟨[5], false, false⟩, some ⟨[], false, true⟩]
-    ∧ (r.feed (s.burst 3 6).2).2 = [false, false, false, true] ∧ (r.feed (s.burst 3 6).2).1.stored = some [1, 2, 3, 4, 5] := by
+    ∧ (r.feed (s.burst 3 6).2).2 = [false, false, false, true] ∧ (r.feed (s.burst 3 6).2).1.incoming = some [1, 2, 3, 4, 5]
+    ∧ (r.feed (s.burst 3 6).2).1.stored = some [9]
+    ∧ ((r.feed (s.burst 3 6).2).1.finishIncoming true).1.stored = some [1, 2, 3, 4, 5] := by
   decide
 
 /-- the empty snapshot is one chunk that is first and last -/
@@ -58,8 +69,10 @@ head of the connection, replace the connection (everything in flight is lost; re
 its transmission), `cancelTransmisstion`, a new snapshot on the sender (`serialize` in any mode incl. fork child
 steps and failures, `checkSerializing` with or without a user checker), a snapshot the sender installs from a
 third node, the follower's own compaction in any mode, a follower restart —
-every byte string with which the follower completed a transfer (`setTransmissionData` returned `True`; the
-store, in file mode the dump file, was replaced by it) is one the sender's store held at some time. -/
+every byte string with which the follower completed a transfer (`setTransmissionData` returned `True`; it is what
+`deserialize(incoming=True)` then reads and what `finishIncoming(True)` makes the stored snapshot) is one the
+sender's store held at some time.  Deliveries carry the install decision of `__loadDumpFile` (accept / reject /
+raised before deciding), any of them. -/
 theorem interrupted_safe (sm rm : Mode) (sf rf : Bool) (sb rb : Nat) (hsb : 1 ≤ sb) (evs : List Ev)
     (hrep : ∀ e ∈ evs, e.repaired = true) :
     ∀ d ∈ ((Link.init sm rm sf rf sb rb).run evs).completed, d ∈ ((Link.init sm rm sf rf sb rb).run evs).held :=
@@ -77,10 +90,11 @@ theorem held_are_sender_snapshots (sm rm : Mode) (sf rf : Bool) (sb rb : Nat) (e
 /-- non-vacuity of `interrupted_safe`: a repaired-alphabet run with a cut burst, a lost suffix, a reconnect and a
 second burst completes once, with the sender's bytes -/
 example :
-    let evs : List Ev := [.sndInstall [1, 2, 3, 4, 5], .burst 2, .deliver, .reconnect true, .burst 100,
-                          .deliver, .deliver, .deliver, .deliver, .deliver, .deliver, .deliver]
+    let evs : List Ev := [.sndInstall [1, 2, 3, 4, 5], .burst 2, .deliver (some true), .reconnect true, .burst 100,
+                          .deliver (some true), .deliver (some true), .deliver (some true), .deliver (some true), .deliver (some true), .deliver (some true), .deliver (some true)]
     (∀ e ∈ evs, e.repaired = true) ∧
-    ((Link.init .file .memory false false 1 1).run evs).completed = [[1, 2, 3, 4, 5]] := by
+    ((Link.init .file .memory false false 1 1).run evs).completed = [[1, 2, 3, 4, 5]] ∧
+    ((Link.init .file .memory false false 1 1).run evs).rcv.stored = some [1, 2, 3, 4, 5] := by
   decide
 
 /-- **D18 (the pinned code, where a replaced connection does not cancel the transmission) — counterexample.**
@@ -91,8 +105,8 @@ theorem interrupted_safe_pinned_counterexample :
     ¬ (∀ (evs : List Ev), ∀ d ∈ ((Link.init .memory .file false false 1 1).run evs).completed,
           d ∈ ((Link.init .memory .file false false 1 1).run evs).held) := by
   intro h
-  have := h [.sndInstall [1, 2, 3, 4, 5], .burst 2, .deliver, .reconnect false, .burst 100,
-             .deliver, .deliver, .deliver, .deliver, .deliver] [1, 3, 4, 5] (by decide)
+  have := h [.sndInstall [1, 2, 3, 4, 5], .burst 2, .deliver (some true), .reconnect false, .burst 100,
+             .deliver (some true), .deliver (some true), .deliver (some true), .deliver (some true), .deliver (some true)] [1, 3, 4, 5] (by decide)
   revert this
   decide
 
@@ -141,22 +155,85 @@ example :
   decide
 
 /-- **Incoming transfer: a kill anywhere inside any sequence of `setTransmissionData` calls (accepted, refused,
-`None`, several transfers) leaves the dump as it was at one of the call boundaries** — never a partially written
-file; together with `interrupted_safe` (what the dump is at a completing call) this is "old or new, never torn"
-for the follower's dump. -/
+`None`, several transfers, complete or not) leaves the dump file exactly as it was** — the transfer only ever writes
+`<dump>.1.tmp` (D70: also at the last chunk). -/
 theorem receive_crash_atomic (r : Ser) (msgs : List (Option Chunk)) (k : Nat) :
-    ∃ j, j ≤ msgs.length ∧ (r.fs.crashAt (r.feedOps msgs) k).dump = (r.feed (msgs.take j)).1.fs.dump :=
+    (r.fs.crashAt (r.feedOps msgs) k).dump = r.fs.dump :=
   feedOps_crash msgs r k
 
 /-- the operations of `receive_crash_atomic` are what the calls perform -/
 theorem set_runs_acceptOps (r : Ser) (c : Option Chunk) :
     (r.setTransmissionData c).1.fs = r.fs.run (r.acceptOps c) := set_fs r c
 
+/-- **Install: `finishIncoming` is at most one primitive operation** (`rename` of the received file over the dump, or
+`remove` of it): at every crash point the dump is what it was or exactly the received snapshot. -/
+theorem install_crash_atomic (s : Ser) (accept : Bool) (k : Nat) :
+    (s.finishOps accept).length ≤ 1 ∧
+    ((s.fs.crashAt (s.finishOps accept) k).dump = s.fs.dump ∨
+     (accept = true ∧ s.incSnap = true ∧ (s.fs.crashAt (s.finishOps accept) k).dump = s.incoming ∧ s.incoming ≠ none)) := by
+  refine ⟨?_, finishOps_crash s accept k⟩
+  unfold Ser.finishOps
+  by_cases h : s.incSnap = true <;> cases accept <;> simp [h]
+
+/-- the operations of `install_crash_atomic` are what the call performs -/
+theorem finish_runs_finishOps (s : Ser) (accept : Bool) :
+    (s.finishIncoming accept).1.fs = s.fs.run (s.finishOps accept) := by
+  unfold Ser.finishIncoming Ser.finishOps
+  by_cases h : s.incSnap = true <;> simp [h, FS.run_nil]
+
 example :
     let r : Ser := { mode := .file, batch := 1, fs := { dump := some [7] } }
     let msgs : List (Option Chunk) := [some ⟨[1, 2], true, false⟩, some ⟨[3], false, false⟩, some ⟨[], false, true⟩]
-    (r.feedOps msgs).length = 6 ∧ (r.fs.crashAt (r.feedOps msgs) 5).dump = some [7] ∧
-    (r.fs.crashAt (r.feedOps msgs) 6).dump = some [1, 2, 3] := by
+    let r' := (r.feed msgs).1
+    (r.feedOps msgs).length = 5 ∧ (r.fs.crashAt (r.feedOps msgs) 5).dump = some [7] ∧ r'.incoming = some [1, 2, 3] ∧
+    r'.finishOps true = [.rename .tmp1 .dump] ∧ (r'.fs.crashAt (r'.finishOps true) 0).dump = some [7] ∧
+    (r'.fs.crashAt (r'.finishOps true) 1).dump = some [1, 2, 3] ∧ r'.finishOps false = [.remove .tmp1] := by
+  decide
+
+-- ------------------------------------------------------------------------------------------------
+-- D70: what can change the stored snapshot
+-- ------------------------------------------------------------------------------------------------
+
+/-- **The follower's stored snapshot changes only through its own dump or an accepted install.**  Every event of a
+link other than the follower's own `serialize`, an operation of its own fork child, a process restart and a delivery
+with `finishIncoming(True)` leaves the follower's stored snapshot byte for byte as it was — in particular every
+delivery that does not complete a transfer, that completes one which `__loadDumpFile` rejects
+(`finishIncoming(False)`), or whose load raises. -/
+theorem store_changes_only_by_own_dump_or_install (l : Link) (e : Ev) (h : e.mayStore = false) :
+    (l.step e).rcv.stored = l.rcv.stored :=
+  rcv_store_frame l e h
+
+/-- **An accepted install stores exactly a snapshot the sender held.**  On every link reachable from two fresh
+`Serializer` objects by events of the repaired alphabet, a delivery either leaves the stored snapshot as it was, or it
+completed a transfer, the decision was to install, and the stored snapshot now equals the completed bytes, which the
+sender's store held. -/
+theorem install_stores_a_held_snapshot (sm rm : Mode) (sf rf : Bool) (sb rb : Nat) (hsb : 1 ≤ sb) (evs : List Ev)
+    (hrep : ∀ e ∈ evs, e.repaired = true) (fin : Option Bool) :
+    let l := (Link.init sm rm sf rf sb rb).run evs
+    (l.step (.deliver fin)).rcv.stored = l.rcv.stored ∨
+    (fin = some true ∧ ∃ d, d ∈ l.held ∧ (l.step (.deliver fin)).rcv.stored = some d ∧
+      (l.step (.deliver fin)).completed = d :: l.completed) :=
+  deliver_store _ fin (run_inv evs _ hrep (Inv_init sm rm sf rf sb rb hsb))
+
+/-- **A torn, incomplete or rejected incoming transfer leaves the stored snapshot byte for byte as it was**: whatever
+is fed to `setTransmissionData` (any chunks, any flags, any order, `None`), the stored snapshot is unchanged, and it
+is still unchanged after `finishIncoming(False)`. -/
+theorem rejected_or_incomplete_transfer_keeps_store (r : Ser) (msgs : List (Option Chunk)) :
+    (r.feed msgs).1.stored = r.stored ∧ ((r.feed msgs).1.finishIncoming false).1.stored = r.stored := by
+  refine ⟨feed_keeps_dump msgs r, ?_⟩
+  show ((r.feed msgs).1.finishIncoming false).1.fs.dump = r.fs.dump
+  rw [finish_reject_dump]; exact feed_keeps_dump msgs r
+
+/-- non-vacuity: a complete transfer that is rejected, and a torn one (first chunk, then a last chunk of something
+else) whose load would raise: the stored `[7]` stays in both modes; the accepted one replaces it -/
+example :
+    let rf : Ser := { mode := .file, batch := 1, fs := { dump := some [7] } }
+    let rm : Ser := { mode := .memory, batch := 1, fs := { dump := some [7] } }
+    let whole : List (Option Chunk) := [some ⟨[1, 2], true, false⟩, some ⟨[], false, true⟩]
+    ((rf.feed whole).1.finishIncoming false).1.stored = some [7] ∧ ((rf.feed whole).1.finishIncoming false).1.fs.tmp1 = none ∧
+    ((rm.feed whole).1.finishIncoming false).1.stored = some [7] ∧ ((rm.feed whole).1.finishIncoming false).1.fs.snap = none ∧
+    ((rm.feed whole).1.finishIncoming true).1.stored = some [1, 2] ∧ ((rf.feed whole).1.finishIncoming true).1.stored = some [1, 2] ∧
+    (rf.feed [some ⟨[1], true, false⟩, none, some ⟨[9], false, true⟩]).1.stored = some [7] := by
   decide
 
 -- ------------------------------------------------------------------------------------------------
@@ -205,7 +282,7 @@ dump is the captured image -/
 example :
     let l : Link := { snd := { mode := .file, fork := true, batch := 2, fs := { dump := some [9, 9, 9] } },
                       rcv := { mode := .memory, batch := 2 } }
-    let evs : List Ev := [.send, .childStep, .cancel, .childStep, .send, .childStep, .deliver, .childStep, .check none]
+    let evs : List Ev := [.send, .childStep, .cancel, .childStep, .send, .childStep, .deliver (some true), .childStep, .check none]
     (∀ e ∈ evs, e.noNewDump = true) ∧
     ((l.step (.serialize 4 [[1, 2, 3]] false)).run evs).snd.stored = some [1, 2, 3] ∧
     ((l.step (.serialize 4 [[1, 2, 3]] false)).run evs).chan = [none] := by
@@ -230,65 +307,70 @@ example :
     (s1.childStep.childStep.childStep.checkSerializing none).2.1 = .success := by
   decide
 
-/-- **D66 (repaired): a snapshot installed from the leader is not overwritten by the node's own, older dump child.**
-When a complete incoming snapshot is installed while a fork child of an own dump is running, the child is stopped
-before the rename: afterwards there is no child, no later child step changes any file, and `checkSerializing` reports
-NOT_SERIALIZING (nothing is trimmed for the abandoned dump). -/
-theorem installed_snapshot_survives_own_dump_child (r : Ser) (c : Chunk)
+/-- **D66 (repaired), restated for `finishIncoming`: a snapshot installed from the leader is not overwritten by the
+node's own, older dump child.**  When `finishIncoming(True)` installs a received snapshot while a fork child of an own
+dump is running, the child is stopped before the rename: the stored snapshot is the received one, there is no child, no
+later child step changes any file, and `checkSerializing` reports NOT_SERIALIZING (nothing is trimmed for the abandoned
+dump). -/
+theorem installed_snapshot_survives_own_dump_child (r : Ser) (b : Bytes)
     (hm : r.mode = .file) (hf : r.fork = true) (hp : r.pid = .child)
-    (hacc : c.isFirst = true ∨ r.incOpen = true) (hl : c.isLast = true) :
-    (r.setTransmissionData (some c)).2 = true ∧ (r.setTransmissionData (some c)).1.child = none ∧
-    (r.setTransmissionData (some c)).1.childStep = (r.setTransmissionData (some c)).1 ∧
-    ((r.setTransmissionData (some c)).1.checkSerializing none).2.1 = .notSerializing := by
-  have h : ¬ ((!c.isFirst && !r.incOpen) = true) := by
-    rcases hacc with h | h <;> simp [h]
-  simp [Ser.setTransmissionData, h, hl, hm, hf, hp, Ser.childStep, Ser.checkSerializing, Ser.memBranch]
+    (hs : r.incSnap = true) (hb : r.incoming = some b) :
+    (r.finishIncoming true).2 = true ∧ (r.finishIncoming true).1.stored = some b ∧
+    (r.finishIncoming true).1.child = none ∧ (r.finishIncoming true).1.childStep = (r.finishIncoming true).1 ∧
+    ((r.finishIncoming true).1.checkSerializing none).2.1 = .notSerializing := by
+  have h1 := finish_accept_dump r b hs hb
+  have h2 := forkWF_finish r ⟨hm, hf, Or.inr hp⟩ hs
+  refine ⟨h1.2.1, h1.1, h2.1, ?_, ?_⟩
+  · simp [Ser.childStep, h2.1]
+  · simp [Ser.checkSerializing, Ser.memBranch, h2.2.2.1, h2.2.2.2, h2.2.1]
 
 /-- non-vacuity, and the schedule of the witness: own dump child forked at `[7]`, the leader's snapshot `[1,2]` is
-installed, the (stopped) child's remaining operations change nothing: the dump stays `[1,2]` -/
+received and installed, the (stopped) child's remaining operations change nothing: the dump stays `[1,2]` -/
 example :
     let r : Ser := { mode := .file, fork := true, batch := 1, fs := { dump := some [7] } }
     let r1 := (r.serialize 3 [[7, 7]] false).1.childStep
-    let r2 := (r1.feed [some ⟨[1, 2], true, false⟩, some ⟨[], false, true⟩]).1
-    r1.pid = .child ∧ r2.fs.dump = some [1, 2] ∧ r2.childStep.childStep.childStep.fs.dump = some [1, 2] ∧ r2.pid = .idle := by
+    let r2 := ((r1.feed [some ⟨[1, 2], true, false⟩, some ⟨[], false, true⟩]).1.finishIncoming true).1
+    r1.pid = .child ∧ (r1.feed [some ⟨[1, 2], true, false⟩, some ⟨[], false, true⟩]).1.pid = .child ∧
+    r2.fs.dump = some [1, 2] ∧ r2.childStep.childStep.childStep.fs.dump = some [1, 2] ∧ r2.pid = .idle := by
   decide
 
 /-- **D66, for every moment at which the own dump was started.**  A fork-mode follower `r0` (idle, no child) receives
 any messages `before` (none, the first chunks, older abandoned transfers …), THEN starts its own dump (`serialize`,
 any image, failing or not), then — in any interleaving `during` of further messages and primitive operations of its
-child — goes on, and finally accepts a last chunk `c`: the install returns `True`, no child is left, no later child
-step changes anything, and `checkSerializing` reports NOT_SERIALIZING (never SUCCESS for the stopped child).
-`before = []` is "child started before the first chunk", `during` without messages and `c` the last chunk is "in the
-tick of the last chunk", everything in between is "between two chunks". -/
+child — goes on until a received snapshot is at hand, and `finishIncoming(True)` installs it: no child is left, no
+later child step changes anything, `checkSerializing` reports NOT_SERIALIZING (never SUCCESS for the stopped child), and
+the stored snapshot is the received one.  `before = []` is "child started before the first chunk", `during` consisting
+of the last chunk alone is "in the tick of the last chunk", everything in between is "between two chunks". -/
 theorem installed_snapshot_survives_own_dump_child_started_any_time
     (r0 : Ser) (before : List (Option Chunk)) (id : Nat) (pieces : List Bytes) (fail : Bool)
-    (during : List (Option (Option Chunk))) (c : Chunk)
+    (during : List (Option (Option Chunk))) (b : Bytes)
     (hm : r0.mode = .file) (hf : r0.fork = true) (hp : r0.pid = .idle) (hc : r0.child = none)
-    (hacc : c.isFirst = true ∨ ((((r0.feed before).1.serialize id pieces fail).1.mix during).incOpen = true))
-    (hl : c.isLast = true) :
-    let r := (((r0.feed before).1.serialize id pieces fail).1.mix during).setTransmissionData (some c)
-    r.2 = true ∧ r.1.child = none ∧ r.1.childStep = r.1 ∧ (r.1.checkSerializing none).2.1 = .notSerializing := by
+    (hs : (((r0.feed before).1.serialize id pieces fail).1.mix during).incSnap = true)
+    (hb : (((r0.feed before).1.serialize id pieces fail).1.mix during).incoming = some b) :
+    let r := ((((r0.feed before).1.serialize id pieces fail).1.mix during).finishIncoming true).1
+    r.stored = some b ∧ r.child = none ∧ r.childStep = r ∧ (r.checkSerializing none).2.1 = .notSerializing := by
   intro r
   have h0 : r0.forkWF := ⟨hm, hf, Or.inl ⟨hp, hc⟩⟩
   have h1 : (r0.feed before).1.forkWF := forkWF_feed before r0 h0
   have h2 := forkWF_mix during _ (forkWF_serialize _ id pieces fail h1)
-  have h3 := forkWF_install _ c h2 hacc hl
-  have hwf := forkWF_set _ (some c) h2
-  have hchild : r.1.child = none := h3.2.1
-  have hpid : r.1.pid = .idle := h3.2.2
-  have hmode : r.1.mode = .file := hwf.1
-  have hfork : r.1.fork = true := hwf.2.1
-  refine ⟨h3.1, hchild, ?_, ?_⟩
+  have h3 := forkWF_finish _ h2 hs
+  have h4 := finish_accept_dump _ b hs hb
+  have hchild : r.child = none := h3.1
+  have hpid : r.pid = .idle := h3.2.1
+  have hmode : r.mode = .file := h3.2.2.1
+  have hfork : r.fork = true := h3.2.2.2
+  refine ⟨h4.1, hchild, ?_, ?_⟩
   · simp [Ser.childStep, hchild]
   · simp [Ser.checkSerializing, Ser.memBranch, hmode, hfork, hpid]
 
 /-- non-vacuity: child started between the first and the last chunk, one child step in between -/
 example :
     let r0 : Ser := { mode := .file, fork := true, batch := 1, fs := { dump := some [7] } }
-    let r := (((r0.feed [some ⟨[1], true, false⟩]).1.serialize 3 [[7, 7]] false).1.mix
-                [some (some ⟨[2], false, false⟩), none]).setTransmissionData (some ⟨[], false, true⟩)
-    (((r0.feed [some ⟨[1], true, false⟩]).1.serialize 3 [[7, 7]] false).1.mix [some (some ⟨[2], false, false⟩), none]).pid = .child ∧
-    r.2 = true ∧ r.1.fs.dump = some [1, 2] ∧ r.1.child = none ∧ r.1.childStep.childStep.fs.dump = some [1, 2] := by
+    let rd := ((r0.feed [some ⟨[1], true, false⟩]).1.serialize 3 [[7, 7]] false).1.mix
+                [some (some ⟨[2], false, false⟩), none, some (some ⟨[], false, true⟩)]
+    let r := (rd.finishIncoming true).1
+    rd.pid = .child ∧ rd.incSnap = true ∧ rd.incoming = some [1, 2] ∧ rd.stored = some [7] ∧
+    r.fs.dump = some [1, 2] ∧ r.child = none ∧ r.childStep.childStep.fs.dump = some [1, 2] := by
   decide
 
 end PSO.C09
